@@ -373,3 +373,21 @@ Proof.
     apply route_eqb_eq in E1, E2. subst. inversion ND as [|? ? NI _]. exfalso. apply NI. simpl. auto.
   - rewrite IH1; auto. apply IH2. eapply Permutation_NoDup; [apply Permutation_map; eauto | auto].
 Qed.
+
+(** * Statements as used in Props/C20.v *)
+Lemma router_remainder c k : k <= length (rel_route c) ->
+  rel_route (shift c k) = skipn k (rel_route c) /\
+  rel_empty (shift c k) = (k =? length (rel_route c)) || rel_empty c.
+Proof. intros H. split; [apply rel_route_shift | apply rel_empty_shift]; auto. Qed.
+
+Lemma router_order_irrelevant R R' c :
+  rr_index R = rr_index R' -> rr_miss R = rr_miss R' ->
+  NoDup (map fst (rr_regs R)) -> Permutation (rr_regs R) (rr_regs R') ->
+  ref_router_serve R c = ref_router_serve R' c.
+Proof.
+  intros Ei Em ND P. apply ref_serve_ext; auto. intros rt. apply rlookup_perm; auto.
+Qed.
+
+Lemma route_canonical p q :
+  Forall good_seg (segs p) /\ (route_p (segs p) = route_p (segs q) -> segs p = segs q).
+Proof. split; [apply segs_good | apply route_p_inj; apply segs_good]. Qed.
